@@ -76,26 +76,31 @@ def calltime_leg(ctx):
     from engine import crash, seams
 
     n = 0
-    opts = {"smain": {"check_valid": "shallow"}}
-    for second_tag in ("a", "b"):
-        for edit in (None, "leaf", "mid", "smain"):
+    for rootname, second_tag in [("smain", "a"), ("smain", "b"), ("nouter", "a"), ("nouter", "b")]:
+        opts = {rootname: {"check_valid": "shallow"}}
+        for edit in (None, "leaf", "mid", rootname) + (("nglue",) if rootname == "nouter" else ()):
             db = seams.fresh_db_path("c03ct")
             E.define_all({}, opts)
-            crash.run_workload(lambda env: [env.run(E.T("smain")(("a", 1))), env.run(E.T("smain")((second_tag, 1)))], db)
+            crash.run_workload(lambda env: [env.run(E.T(rootname)(("a", 1))), env.run(E.T(rootname)((second_tag, 1)))], db)
+            sub = crash.subtree_invariant(db) if edit is None else None
+            if sub:
+                ctx.violation(f"calltime-shallow:subtree-invariant:{rootname}:{sub[0][0]}", {"root": rootname, "second_tag": second_tag, "edit": None},
+                              f"{rootname}[shallow](('a',1)); {rootname}(('{second_tag}',1)): {len(sub)} call nodes have an incomplete subtree-task set: {sub[:3]}")
             bodies = {edit: 1} if edit else {}
             E.define_all(bodies, opts)
-            _, got, _ = crash.run_workload(lambda env: [env.run(E.T("smain")((second_tag, 1)))], db, id_salt=3)
+            _, got, _ = crash.run_workload(lambda env: [env.run(E.T(rootname)((second_tag, 1)))], db, id_salt=3)
             calls = dict(E.CALLS)
             E.define_all(bodies, opts)
             exp_db = seams.fresh_db_path("c03cte")
-            _, exp, _ = crash.run_workload(lambda env: [env.run(E.T("smain")((second_tag, 1)))], exp_db)
+            _, exp, _ = crash.run_workload(lambda env: [env.run(E.T(rootname)((second_tag, 1)))], exp_db)
             seams.remove_db(exp_db)
             seams.remove_db(db)
             n += 1
             if cc.norm(got) != cc.norm(exp):
-                ctx.violation(f"calltime-shallow:stale-hit:edit-{edit}", {"second_tag": second_tag, "edit": edit},
-                              f"smain[shallow](('a',1)); smain(('{second_tag}',1)); edit {edit}; smain(('{second_tag}',1)) returns {cc.norm(got)} "
-                              f"(functions run: {calls}), an empty backend gives {cc.norm(exp)}; mid is called with .options(check_valid='shallow')")
+                ctx.violation(f"calltime-shallow:stale-hit:{rootname + ':' if rootname != 'smain' else ''}edit-{edit}", {"root": rootname, "second_tag": second_tag, "edit": edit},
+                              f"{rootname}[shallow](('a',1)); {rootname}(('{second_tag}',1)); edit {edit}; {rootname}(('{second_tag}',1)) returns {cc.norm(got)} "
+                              f"(functions run: {calls}), an empty backend gives {cc.norm(exp)}; mid is called with .options(check_valid='shallow')"
+                              + (" from nglue, a fully checked task between the shallow root and the shallow call" if rootname == "nouter" else ""))
     return n
 
 
